@@ -117,6 +117,8 @@ overflow_witness!(c09_witness_overflow_pos, "9223372036854775808");
 overflow_witness!(c09_witness_overflow_neg, "-9223372036854775809");
 overflow_witness!(c09_witness_overflow_20digits, "99999999999999999999");
 
+// (get_arg itself - trim_start, starts_with, char_indices on symbolic text - was tried on 2-4 characters and does not
+// finish within 20 min / 27 GB)
 // NOT decided here: Query::parse on the bare keywords "SELECT" / "ADD" / "DELETE" (fixed-width slices [7..], [4..]).
 // Any harness from which Constraint::parse is reachable pulls in the regex crate, on which kani-compiler 0.68
 // crashes (internal compiler error in regex_automata::meta::strategy::new); see DESIGN.md.
